@@ -244,29 +244,38 @@ WIDE_MODE = [False]
 WIDE_CH = st.one_of(st.characters(categories=("L", "M", "N", "P", "S", "Zs")), st.sampled_from(list("&<>&<>\"' \t\n]")))
 
 
+def _rarely(main, rare, k=12):
+    """`rare` once in k draws: values that will be refused must not starve the accepted instances."""
+    return st.integers(0, k - 1).flatmap(lambda i: rare if i == 0 else main)
+
+
 def wide_scalar_st(t):
     from ofxtools import Types
 
     if isinstance(t, Types.ListElement):
         return wide_scalar_st(t.converter)
     if isinstance(t, Types.Bool):
-        return st.one_of(st.booleans().map(lambda b: ["bool", b]), st.booleans().map(lambda b: ["bool", b]), st.sampled_from([["int", 0], ["int", 1], ["str", "y"], ["str", "Y"]]))
+        return _rarely(st.booleans().map(lambda b: ["bool", b]), st.sampled_from([["int", 0], ["int", 1], ["str", "y"], ["str", "Y"]]))
     if isinstance(t, Types.String):
         cap = t.length if t.length is not None else 40
-        return st.one_of(
+        main = st.one_of(
             st.sampled_from(["AT&T", "a<b", "<![CDATA[x]]>", "&amp;", "&#60;", "&bogus;", "a&b;c", "</OFX>", "&", "<", " x ", "]]>"]).map(lambda x: x[:cap] or "&"),
             st.text(WIDE_CH, min_size=1, max_size=min(cap, 12)),
             st.text(st.sampled_from("&<a"), min_size=cap, max_size=cap) if cap <= 300 else st.just("&<"),
-        ).map(lambda x: ["str", x])
+        )
+        # at the limit, then over it by blanks / no-break spaces / a combining mark only (must be refused, not written)
+        over = st.sampled_from([" ", "  ", "\u00a0", "\u0301", "\t"]).map(lambda pad: "x" * cap + pad) if cap <= 300 else st.just("x ")
+        return _rarely(main, over).map(lambda x: ["str", x])
     if isinstance(t, Types.OneOf):
         # mostly declared tokens; sometimes a spelling that differs only in case, or a foreign token (must be refused, or
         # whatever is written must be a declared token)
         tok = st.sampled_from(list(t.valid))
-        return st.one_of(tok, tok, tok, tok.map(lambda x: str(x).lower()), tok.map(lambda x: str(x).capitalize()), st.just("ZZ_FOREIGN")).map(lambda x: ["tok", x])
+        return _rarely(tok, st.one_of(tok.map(lambda x: str(x).lower()), tok.map(lambda x: str(x).capitalize()), st.just("ZZ_FOREIGN"))).map(lambda x: ["tok", x])
     if isinstance(t, Types.Integer):
         # bool is an int subclass; values beyond the digit limit must be refused
         over = 10 ** (t.length or 12)
-        return st.one_of(int_st(t.length).map(lambda n: ["int", n]), int_st(t.length).map(lambda n: ["int", n]), st.booleans().map(lambda b: ["bool", b]), st.sampled_from([over, -over, over * 10 + 3]).map(lambda n: ["int", n]))
+        ok = st.one_of(int_st(t.length).map(lambda n: ["int", n]), int_st(t.length).map(lambda n: ["int", n]), int_st(t.length).map(lambda n: ["int", n]), st.booleans().map(lambda b: ["bool", b]))
+        return _rarely(ok, st.sampled_from([over, -over, over * 10 + 3]).map(lambda n: ["int", n]))
     if isinstance(t, Types.Decimal):
         special = st.sampled_from(["NaN", "sNaN", "Infinity", "-Infinity", "-0", "0E-10", "0E+5", "1E+2", "1E-30", "-1.50E+3", "1E+30", "123456789012345678901234567890", "0.000000000000000000001"])
         general = st.builds(
